@@ -14,6 +14,7 @@
 
 pub mod lru_file;
 
+#[cfg_attr(kani, allow(unused_imports))]
 use std::collections::HashMap;
 use std::path::{Path, PathBuf};
 
@@ -40,7 +41,11 @@ pub struct LruManager {
     /// Flat array of entries forming a doubly-linked list.
     entries: Vec<LruFileEntry>,
     /// Hash map from 9-byte key to entry index for O(1) lookup.
+    #[cfg(not(kani))]
     key_map: HashMap<[u8; 9], u32>,
+    /// Verification hook (cfg(kani) only): same map contract on an ordered map.
+    #[cfg(kani)]
+    key_map: std::collections::BTreeMap<[u8; 9], u32>,
     /// Free list: indices of unused entries.
     free_list: Vec<u32>,
     /// Current generation counter (never 0 when active).
@@ -62,7 +67,10 @@ impl LruManager {
         Self {
             header: LruFileHeader::default(),
             entries,
+            #[cfg(not(kani))]
             key_map: HashMap::with_capacity(capacity as usize),
+            #[cfg(kani)]
+            key_map: std::collections::BTreeMap::new(),
             free_list,
             generation: 1, // Never 0
             prev_generation: 0,
